@@ -562,6 +562,56 @@ def long_windows(rep, rng, tier):
                 sec['distinct_nontrivial'] += 1
 
 
+def big_dumps(rep, rng, tier):
+    """A long, entirely well-formed dump is read to its end whatever block size the reader works in: for every block size
+    tools/kdv/readprobe.py finds (sizes the real code requests from the stream, integers the reader's source mentions),
+    a version-2 dump whose record area is longer than two blocks — thread maps of even and odd length, with and without
+    padding, so that the record area starts at different alignments in the stream — goes through formatted_traces: no
+    exception, one line per record (every record is an in-domain scheduler record)."""
+    import io
+    from .. import readprobe
+    from pykdebugparser.pykdebugparser import PyKdebugParser
+    sec = rep.section('big-dumps')
+    sizes = readprobe.block_sizes(tier, version=2)
+    sec['rule'] = ('v2 dumps of 2B/64 + 70 in-domain records for every probed / mined block size B (%s), thread maps of 0 / 1 / 2 '
+                   'entries, padding 0 / 8: formatted_traces must not raise and must print one line per record'
+                   % [b for b, _ in sizes][:12])
+    budget = 40 << 20
+    spent = 0
+    bad = False
+    for B, origin in sizes:
+        n = 2 * B // 64 + 70
+        for nth, pad in ((0, 0), (1, 0), (2, 8)):
+            if spent + 64 * n > budget or bad:
+                continue
+            spent += 64 * n
+            s = P.Stream(rng)
+            s.ts = 256 * rng.randrange(1, 1000)
+            rec0 = s.ev('MACH_SCHED', P.NONE, 11, [0, 0x1000, 0x2222, 0x3333])
+            body = b''.join((s.ts + 1 + i).to_bytes(8, 'little') + rec0[8:] for i in range(n - 1))
+            tmap = [(11, 42, 'launchd'), (12, 42, 'launchd')][:nth]
+            data = P.v2_bytes(tmap, [rec0], pad) + body
+            codes = P.restricted_codes([rec0])
+            p = PyKdebugParser()
+            p.color = False
+            lines, err = 0, '-'
+            try:
+                for _ in p.formatted_traces(io.BytesIO(data), codes):
+                    lines += 1
+            except Exception as e:
+                err = core.err_name(e)
+            sec['cases'] += 1
+            if err != '-' or lines != n:
+                bad = True
+                rep.add_failure('abort:big-dump:%s' % (err if err != '-' else 'lines-missing'),
+                                'a well-formed v2 dump of %d scheduler records (thread map of %d entries, %d padding bytes; block size '
+                                'aimed at: %d, %s): formatted_traces %s after %d lines'
+                                % (n, nth, pad, B, origin, 'raises ' + err if err != '-' else 'ends', lines),
+                                {'section': 'big-dumps', 'records': n, 'threads': nth, 'pad': pad, 'B': B})
+            else:
+                sec['distinct_nontrivial'] += 1
+
+
 def correspondence(rep, rng, tier):
     P.section_pipeline(rep, rng, tier, oracle_fn=make_oracle(need_ascii=True))
     shrink(rep, 'pipeline', make_oracle(need_ascii=True))
@@ -570,6 +620,7 @@ def correspondence(rep, rng, tier):
     section_indomain(rep, rng, tier)
     section_findings(rep)
     long_windows(rep, rng, tier)
+    big_dumps(rep, rng, tier)
     shrink(rep, 'foreign-record', make_oracle())
     st = D.stats()
     rep.notes.append('translator: %d of %d registered handlers compiled to IR; hand-modelled: %s'
@@ -580,6 +631,28 @@ def replay(path):
     with open(path) as fd:
         r = json.load(fd)
     rp = r.get('replay') or {}
+    if rp.get('section') == 'big-dumps':
+        import io
+        import random
+        from pykdebugparser.pykdebugparser import PyKdebugParser
+        s = P.Stream(random.Random(0))
+        rec0 = s.ev('MACH_SCHED', P.NONE, 11, [0, 0x1000, 0x2222, 0x3333])
+        n = rp['records']
+        body = b''.join((s.ts + 1 + i).to_bytes(8, 'little') + rec0[8:] for i in range(n - 1))
+        data = P.v2_bytes([(11, 42, 'launchd'), (12, 42, 'launchd')][:rp['threads']], [rec0], rp['pad']) + body
+        p = PyKdebugParser()
+        p.color = False
+        lines, err = 0, '-'
+        try:
+            for _ in p.formatted_traces(io.BytesIO(data), P.restricted_codes([rec0])):
+                lines += 1
+        except Exception as e:
+            err = core.err_name(e)
+        print('well-formed v2 dump of %d records: %d lines, exception %s' % (n, lines, err))
+        if err != '-' or lines != n:
+            print(f'VIOLATION property=C07 replay={path}')
+            return 1
+        return 0
     if rp.get('section') == 'long-windows':
         s = P.Stream(None)
         name, nested, a = rp['decoder'], rp['nested'], rp['start']
